@@ -106,6 +106,17 @@ def worker(args):
         return {"sub": subname, "shard": shard, "error": "".join(traceback.format_exception(type(e), e, e.__traceback__))}
 
 
+def _die_with_parent():
+    """a killed runner (timeout of a calling tool) must not leave workers behind"""
+    try:
+        import ctypes
+        import signal
+
+        ctypes.CDLL("libc.so.6", use_errno=True).prctl(1, signal.SIGKILL)  # PR_SET_PDEATHSIG
+    except Exception:  # pylint: disable=broad-except
+        pass
+
+
 def replay_file(mod, path):
     with open(path, encoding="utf-8") as f:
         rep = json.load(f)
@@ -183,7 +194,7 @@ def run(mod, prop, tier, seed, scale, only, t0):
         for sh in range(s.shards[tier]):
             tasks.append((prop, s.name, tier, seed, sh, s.shards[tier], scale, shrink_budget))
     ctx = multiprocessing.get_context("fork")
-    with ctx.Pool(min(NPROC, max(1, len(tasks)))) as pool:
+    with ctx.Pool(min(NPROC, max(1, len(tasks))), initializer=_die_with_parent) as pool:
         results = pool.map(worker, tasks, chunksize=1)
     errs = [r for r in results if r["error"]]
     for r in errs[:3]:
